@@ -511,7 +511,7 @@ PROPS = {
         "functions": UPD_FUNCS,
         "assumptions": UPD_ASSUME,
         "trusted": ["harness/clock-bound-d/verif_updater.rs (expected_record oracle)"],
-        "groups": [dict(DGRP, harnesses=[dh("c08_new_initial_state"), dh("c08_fsm_table"), dh("c08_update_step"), dh("c08_missing_step"), dh("c08_history_collapses"), dh("c08_dispatch", timeout=900)]),
+        "groups": [dict(DGRP, harnesses=[dh("c08_new_initial_state"), dh("c10_from_u16", replayable=True), dh("c08_fsm_table"), dh("c08_update_step"), dh("c08_missing_step"), dh("c08_history_collapses"), dh("c08_dispatch", timeout=900)]),
                    lemmas(r"C08\.lemma\..*")],
     },
     "C09": {
@@ -575,6 +575,10 @@ PROPS = {
             lemmas(r"C01\.lemma\..*", r"C08\.lemma\..*"),
             SNAPSHOT_VERUS,
             dict(SHM_READ_GRP, harnesses=[QUIESCENT_H_C03]),
+            # "across daemon restarts": the restarted writer takes a valid segment over as it is (an odd generation stays
+            # odd until the next complete update), and a fresh reader starts from an empty or consistent cache
+            dict(SHM_WRITE_GRP, harnesses=[sh("c04_new_takeover_or_wipe", WR, replayable=False)]),
+            dict(SHM_READ_GRP, c_lib=POSIX, harnesses=[dict(OPEN_H, only=r"C16\.open\.(cache_is_empty_or_the_file_s_own_publication|ok_iff_valid_and_large_enough)")]),
             {"kind": "verus", "gen": "compute", "obligations": [r"C05\.compute\.(never_less|symmetric|exact|ok)", r"C06\.compute\.(sync_only_if|free_only_if|unknown_sticky|void_is_unknown|status_law)", r"NIX\..*"],
              "rlimit": 30, "float_dependent": FLOAT_DEP, "float_shape_clause": "C05.compute.exact",
              "float_dependent_if_shape_lost": ["C05.compute.ordered", "C14.compute.no_panic"], "pair": COMPUTE_SEARCH},
@@ -627,6 +631,9 @@ PROPS = {
                         "snapshot's retry loop is unwound twice with the unwinding assertion on (with a quiescent segment the first iteration returns)"],
         "trusted": ["harness/clock-bound-shm/verif_read.rs (Seg layout, reader_over)"],
         "groups": [dict(SHM_READ_GRP, harnesses=[QUIESCENT_H_C03, ONE_UPDATE_H]),
+                   # readers "created before, between or after publications": the snapshot contract holds for every
+                   # cache that is empty or a publication with its own generation - `new` must establish that
+                   dict(SHM_READ_GRP, c_lib=POSIX, harnesses=[dict(OPEN_H, only=r"C16\.open\.(cache_is_empty_or_the_file_s_own_publication|ok_iff_valid_and_large_enough)")]),
                    SNAPSHOT_VERUS,
                    dict(SHM_WRITE_GRP, harnesses=[C11_WRITE, sh("c16_write_then_fresh_snapshot_roundtrip", WR)]),
                    lemmas(r"C03\.lemma\..*", r"C11\.lemma\..*")],
